@@ -13,6 +13,7 @@ EXPLANATION = (
     "coin fields' provenance, call only under Some(action))."
     " R3 also requires the three effects (fee-pool debit, tips reset, reward coin) on EVERY path of collect_proposer_action_fee (a special-case early return that skips one of them is reported); `mem::replace(&mut self.tips, 0)` is read as read-then-zero."
     " Shared: C03.R5 (no new mutable global state on the fee path) and C01.R10 (fee pool and tips do not wrap)."
+    ' Imports C01.R5: fee_pool and tips are written only by the fee split, the proposer reward and the TIP-909 subsidy.'
 )
 NOT_DECIDED = [
     "the numeric definition of Transaction::weight / base_fee (trusted base melstructs, version recorded)",
